@@ -232,7 +232,12 @@ def compare_paths(run, cls, ident, key, A, B, cap):
 
 
 def same(a, b):
-    return a["exitcode"] == b["exitcode"] and a["num_models"] == b["num_models"] and a["models"] == b["models"]
+    # counterexamples are compared by the (normalised) variables they assign and their validity label; the concrete values a
+    # solver picks for under-constrained variables may legitimately differ between two equivalent queries
+    def shape(r):
+        return sorted(tuple(sorted(n for n, _ in m[:-1])) + (m[-1],) for m in r["models"])
+
+    return a["exitcode"] == b["exitcode"] and a["num_models"] == b["num_models"] and shape(a) == shape(b)
 
 
 def check_contract(arg):
@@ -294,22 +299,36 @@ def brief(r):
     return {"exitcode": r["exitcode"], "num_models": r["num_models"], "models": [str(m)[:120] for m in r["models"][:2]]}
 
 
+def _baseline(idx):
+    nm, sp, oth = handmade()[idx]
+    tests = [s for s in sp.sigs() if s.startswith("invariant_")]
+    res, _, _ = observe(sp, oth, tests, invariant_depth=2)
+    return res
+
+
 def cross_contract(run):
-    """two different build outputs in one process (singletons must not leak): A then B equals B alone"""
+    """two different build outputs in one process (singletons must not leak): each contract's results in the sequence
+    A, B, A, B equal its results in a fresh process"""
     hm = handmade()
-    pairs = [(hm[4], hm[5]), (hm[5], hm[4])]
-    for (n1, s1, o1), (n2, s2, o2) in pairs:
-        t2 = [s for s in s2.sigs() if s.startswith("invariant_")]
-        alone, _, _ = observe(s2, o2, t2, invariant_depth=2)
-        observe(s1, o1, [s for s in s1.sigs() if s.startswith("invariant_")], invariant_depth=2)
-        after, _, o = observe(s2, o2, t2, invariant_depth=2)
-        for t in t2:
-            ident = f"{n2}:{t} after contract {n1}"
-            if t in alone and t in after and same(alone[t], after[t]):
+    base = common.parallel_map(_baseline, [4, 5], 2)  # forked children: pristine singletons
+    if any(isinstance(b, tuple) and b and b[0] == "error" for b in base):
+        run.inconc("cross-contract", "baseline", "baseline worker failed")
+        return
+    seq = [4, 5, 4, 5]
+    for pos, idx in enumerate(seq):
+        nm, sp, oth = hm[idx]
+        tests = [s for s in sp.sigs() if s.startswith("invariant_")]
+        res, _, o = observe(sp, oth, tests, invariant_depth=2)
+        b = base[idx - 4]
+        for t in tests:
+            ident = f"{nm}:{t} as run #{pos + 1} of the sequence invpair,invab,invpair,invab in one process"
+            if t not in b:
+                run.inconc("cross-contract", ident, "no baseline result")
+            elif t in res and same(b[t], res[t]):
                 run.ok("cross-contract", ident)
-            elif t in alone:
-                run.violation("cross-contract", f"cross/{n1}>{n2}", f"{ident}: {brief(after.get(t)) if t in after else 'no result'} vs alone "
-                              f"{brief(alone[t])} ({o.warnings[:1]})", {"ident": ident})
+            else:
+                run.violation("cross-contract", f"cross/{nm}/run{pos + 1}", f"{ident}: {brief(res[t]) if t in res else 'no result'} vs fresh process "
+                              f"{brief(b[t])} ({[m for _, m in o.warnings][:1]})", {"ident": ident})
 
 
 def main(run: common.Run):
